@@ -71,6 +71,29 @@ describe(T: Type): String == {
 }
 print << area(3, 4) << " " << describe Shape << newline;
 '''
+# A library that the client depends on only INDIRECTLY: the client imports from la.ao, whose domain is
+# implemented with a domain of lb.ao; the damaged file is lb.ao.
+LB_SRC = b'''#include "axllib"
+Base: with { bv: SingleInteger -> SingleInteger; bname: () -> String } == add {
+	bv(n: SingleInteger): SingleInteger == n * n + 3;
+	bname(): String == "base";
+}
+'''
+LA_SRC = b'''#include "axllib"
+#library LB "lb.ao"
+import from LB;
+Derived: with { dv: SingleInteger -> SingleInteger; dname: () -> String } == add {
+	import from Base;
+	dv(n: SingleInteger): SingleInteger == bv(n) + 1;
+	dname(): String == concat(bname(), "+derived");
+}
+'''
+CLIENT7 = b'''#include "axllib"
+#library LA "la.ao"
+import from LA;
+import from Derived, SingleInteger;
+print << dv 5 << " " << dname() << newline;
+'''
 # route name -> (options, source argument or None for "the subject file itself")
 ROUTES = {
     "R1": (["-Fc", "-Ffm", "-Flsp"], None),		# compile a saved .ao
@@ -86,6 +109,8 @@ ROUTES = {
     "R9": (["-Ginterp"], "cl5.as"),			# archive whose second member extends a domain of the first
     "R9c": (["-Fc", "-Flsp"], "cl5.as"),
     "R9l": (["-lMineLib=shape", "-Ginterp"], "cl6.as"),	# the same archive named on the command line (-l), opened while options are processed
+    "R10": (["-Ginterp"], "cl7.as"),			# the damaged file is a library the client needs only through another library
+    "R10q": (["-Q3", "-Fc", "-Flsp"], "cl7.as"),
     "R8": (["-Gloop"], "LOOP"),				# the interactive loop reading the file through #library
 }
 LOOP_SCRIPT = '''#int verbose off
@@ -257,6 +282,17 @@ def make_subjects(binfo, scratch, seed, tier):
             subjects.append({"kind": "al", "file": "liblxy.al", "data": al2, "aux": {"cl3.as": CLIENT2},
                              "routes": ["R6", "R6q"], "regions": regs2, "trace": [], "prog": "lx.as+ly.as", "source": LIB_SRC,
                              "hdr_ranges": [(0, 68 + 165), (m2, m2 + 60 + 165)]})
+    # a library needed only indirectly
+    rb = write_world(binfo, scratch, "lb.as", LB_SRC)
+    if rb.rc == 0 and "lb.ao" in rb.files:
+        aob = rb.files["lb.ao"]
+        w = scratch.new()
+        ra = worlds.compile_world(binfo, w, {"la.as": LA_SRC, "lb.ao": aob}, ["-Fao"], ["la.as"], cpu=60)
+        vsim.cleanup_world(w)
+        if ra.rc == 0 and "la.ao" in ra.files:
+            trace = [(int(e[2]), int(e[3])) for e in vsim.parse_log(rb.log)["fs"] if e[0] == "W" and e[1] == "ao"]
+            subjects.append({"kind": "ao", "file": "lb.ao", "data": aob, "aux": {"cl7.as": CLIENT7, "la.ao": ra.files["la.ao"]},
+                             "routes": ["R10", "R10q"], "regions": ao_regions(aob), "trace": trace, "prog": "lb.as", "source": LB_SRC})
     # an archive whose second member extends a domain of the first member
     rs = write_world(binfo, scratch, "shapes.as", SHAPES_SRC)
     if rs.rc == 0 and "shapes.ao" in rs.files:
